@@ -15,7 +15,10 @@ package shimagent
 //@ ghost func inv(s *Server) bool = s.agent != nil && s.conn != nil && s.certs != nil && s.upstreamSSHCACertCache != nil
 //@ # table invariants: in-memory entries are objects stored under the hash of their own blob; with the no-upstream mode off the cache of hidden upstream certificates stays empty
 //@ ghost func cblob(c *certificate) int = contentOf(elems(c.Blob), off(c.Blob), len(c.Blob))
-//@ ghost func certsNonNil(s *Server) bool = forall(h#bytes, h in dom(s.certs), s.certs[h] != nil && h == sha(cblob(s.certs[h])))
+//@ # the blob identity of a certificate wrapper is, by definition, what its Marshal returns: the content of its (immutable) Blob field
+//@ immutable certificate.Blob
+//@ onalloc certificate(c): blobid(asKey(c)) == cblob(c)
+//@ ghost func certsNonNil(s *Server) bool = forall(h#bytes, h in dom(s.certs), s.certs[h] != nil && h == sha(blobid(asKey(s.certs[h]))))
 //@ ghost func cacheOff(s *Server) bool = !s.noUpstreamSSHCACert ==> mapdom(s.upstreamSSHCACertCache) == nokeys(s.upstreamSSHCACertCache)
 //@ ghost func inv2(s *Server) bool = certsNonNil(s) && cacheOff(s)
 //@ ghost func condsOK(s *Server) bool = forall(i, 0 <= i && i < 40, s.conds[i] != nil && s.conds[i].L != nil && mstate(pl(s.conds[i].L)) == 0)
@@ -299,7 +302,7 @@ package shimagent
 //@     invariant certsNonNil(s)
 //@     invariant forall(j, 0 <= j && j < len(keysInAgent), keysInAgent[j] != nil && akBlob(keysInAgent[j]) == blobid(asKey(keysInAgent[j])))
 //@     invariant forall(i, 0 <= i && i < len(keys), keys[i] != nil && (sha(akBlob(keys[i])) in dom(s.certs)))
-//@     invariant forall(h#bytes, visited(h), exists(i, 0 <= i && i < len(keys), akBlob(keys[i]) == cblob(s.certs[h])))
+//@     invariant forall(h#bytes, visited(h), exists(i, 0 <= i && i < len(keys), akBlob(keys[i]) == blobid(asKey(s.certs[h]))))
 //@   loop 2:
 //@     invariant wheld(s) && inv(s) && !old(s.locked)
 //@     invariant calls(filter) == f0 + 1 && arg(filter, f0, 0) == s && ret(filter, f0, 2) == nil && err == nil
@@ -314,7 +317,7 @@ package shimagent
 //@       (!(certBlob(blobid(asKey(keysInAgent[j]))) && parseOKid(blobid(asKey(keysInAgent[j])))) ||
 //@        (!(sha(blobid(asKey(keysInAgent[j]))) in dom(s.upstreamSSHCACertCache)) && !(s.noUpstreamSSHCACert && hiddenBlob(blobid(asKey(keysInAgent[j])))))) ==>
 //@       exists(i, 0 <= i && i < len(keys), keys[i] == keysInAgent[j] || akBlob(keys[i]) == blobid(asKey(keysInAgent[j]))))
-//@     invariant [in-memory-certificates-stay-listed] forall(h#bytes, h in dom(s.certs), exists(i, 0 <= i && i < len(keys), akBlob(keys[i]) == cblob(s.certs[h])))
+//@     invariant [in-memory-certificates-stay-listed] forall(h#bytes, h in dom(s.certs), exists(i, 0 <= i && i < len(keys), akBlob(keys[i]) == blobid(asKey(s.certs[h]))))
 
 //@ # ---------------------------------------------------------------- Signers: the same purge and the same hiding rule as List
 //@ ghost func hiddenKey(k ssh.PublicKey) bool = keyutil.castable(k) && keyid.decOK(keyutil.keyIdOfKey(k))
